@@ -35,7 +35,10 @@ PARTIAL = ["C14_full is refuted twice (both reproduced on /repo): an Executed(Un
            "an id named by the trace but missing from the stores: the model follows the sources through the translator flag "
            "forge_dangling_id_is_error (DataVerifierError::CidNotFound => DataSignatureCheckError since /repo a206dea; before that the "
            "`.expect(..)` panicked: FCrash, which the oracle counts as 'not accepted', the crash itself being C01's)"]
-ASSUMPTIONS = ["Ed25519 (fluence-keypair) is unforgeable and borsh((cids, salt)) is injective: signatures are the terms Sig signer cids salt of model/Sig.v "
+ASSUMPTIONS = ["rule (C) of the driver's oracle (dependent family only): in a script made of seq/par over calls with scalar outputs and deterministic "
+               "services, the arguments of a call are the same in every run whose variables are bound to the results their owners produced for "
+               "the instructions that define them (argued informally, not a theorem of the model)",
+               "Ed25519 (fluence-keypair) is unforgeable and borsh((cids, salt)) is injective: signatures are the terms Sig signer cids salt of model/Sig.v "
                "(Dolev-Yao; the attacker hypothesis `dolev_yao owned produced sigs` is an explicit premise of C14_honest / C14_attribution)",
                "content ids: whether a content hashes to an id is a Section variable per store (the relation characterised by C25); collision "
                "resistance is the explicit premise `collision_free` of C14_binds / C14_tamper_store",
